@@ -196,65 +196,79 @@ def _owner_leaves():
 
 
 def _influence_case(j, tier, seed, rng, obs):
-    """one slice of the byte positions of one leader: substitute each byte, diff the canon, compare with the owner's leaves"""
+    """one slice of the byte positions of one file: substitute each byte by another character of its class, diff the
+    canon, and require the changed leaves to be a subset of the leaves the spec assigns to the owning field"""
+    from vf import speclib
+    import fsspec
+
     r = random.Random(f"C20-infl-{seed}")
     files, info = gen.rich_product(r, [seed, 777], level="1.5", n_images=1, scans=[None], max_lines=2, max_pixels=2,
                                    leader_kw={"n_mp": 1, "designator": "UTM-PROJECTION", "att_len": 16 + 120 * 2, "n_att": 2, "n_ch": 2,
                                               "fac_lens": [66, 70, 80, 90]}, spare=random.Random("infl-pad"))
-    led_name = info["names"]["led"]
-    base_bytes = files[led_name]
-    refdec.leader(base_bytes)
+    names = info["names"]
+    if j < 48:
+        target, stride, off0 = names["led"], 48, j
+        refdec.leader(files[target])
+        owners = _owner_leaves()
+    elif j < 56:
+        target, stride, off0 = names["vol"], 8, j - 48
+        refdec.volume(files[target])
+        owners = {f"{rec}:{fld}": {f"/@{a}"} for a, (rec, fld) in speclib.VOLUME_ATTRS.items()}
+    else:
+        target, stride, off0 = names["imgs"][0], 8, j - 56
+        refdec.image_sources(files[target])
+        owners = {}
+        node = expect.spec("image")["IU2"]["nodes"][0]
+        for name, v in node["attrs"].items():
+            if isinstance(v.get("src"), str) and v["src"].startswith("fd:"):
+                owners.setdefault(v["src"], set()).add(f"/imagery/HH@{name}")
+    base_bytes = files[target]
     owner_of = {}
-    for s, (off, w, rec) in refdec.ABS.items():
-        for p in range(off, off + w):
-            owner_of[p] = (s, rec)
-    owners = _owner_leaves()
+    limit = len(base_bytes) if target != names["imgs"][0] else 720
+    for s_, (off, w, rec) in refdec.ABS.items():
+        for pos in range(off, off + w):
+            if pos < limit:
+                owner_of[pos] = (s_, rec)
     root = harness.unique_root("memory", "infl")
     url = synth.install(files, root, "memory")
     violations = []
+    fs = fsspec.filesystem("memory")
     try:
         base = canon.canon(harness.open_tree(url, use_cache=False))
-        positions = list(range(j, len(base_bytes), 64))
-        from vf import tracefs  # noqa: F401
-        import fsspec
-
-        fs = fsspec.filesystem("memory")
-        for pos in positions:
-            s, rec = owner_of.get(pos, (None, None))
-            if s is None or ":preamble." in s:
+        for pos in range(off0, limit, stride):
+            s_, rec = owner_of.get(pos, (None, None))
+            if s_ is None or ":preamble." in s_:
                 continue
-            f = synth.field(rec, s.split(":")[-1])
+            f = synth.field(rec, s_.split(":")[-1])
             kind = synth.base_kind(f)
             old = base_bytes[pos:pos + 1]
-            if kind in ("A_int", "A_float", "A_complex") and not gen.is_padding(f):
+            if f["kind"] == "enum" or (rec, f["name"]) in gen.CONSTRAINED or f["name"].endswith(("number_of_records", "record_length")):
+                continue
+            if kind in ("A_int", "A_float", "A_complex"):
                 if not old.isdigit():
                     continue
                 new = bytes([48 + (old[0] - 48 + 1 + rng.randrange(8)) % 10])
-            elif kind == "A_str" or gen.is_padding(f):
-                if f["kind"] == "enum" or (rec, f["name"]) in gen.CONSTRAINED:
+            elif kind == "A_str":
+                if s_ in ("ds:scene_center_time", "pp:datetime_of_first_point.date", "vd:logical_volume_creation_datetime"):
                     continue
-                new = rng.choice([c for c in gen.PRINTABLE if c.encode() != old]).encode() if kind == "A_str" else old
-                if kind != "A_str":
-                    continue
+                new = rng.choice([c for c in gen.PRINTABLE if c.encode() != old]).encode()
             else:
                 continue
-            mod = base_bytes[:pos] + new + base_bytes[pos + 1:]
-            fs.pipe(f"{root}/{led_name}", mod)
+            fs.pipe(f"{root}/{target}", base_bytes[:pos] + new + base_bytes[pos + 1:])
             obs["influence_bytes"] += 1
             try:
                 c = canon.canon(harness.open_tree(url, use_cache=False))
             except Exception as e:
-                violations.append({"what": f"substituting byte {pos} ({old!r}->{new!r}) of field {s} raised {harness.exc_sig(e)}", "detail": {}})
+                violations.append({"what": f"substituting byte {pos} ({old!r}->{new!r}) of field {s_} in {target[:3]} raised {harness.exc_sig(e)}", "detail": {}})
                 continue
-            changed = {k.split("[")[0] for k, *_ in canon.diff(base, c)}
-            allowed = owners.get(re.sub(r":\d+:", ":{i}:", s), set())
-            allowed_keys = {a.replace("@", "@").replace("#", "#") for a in allowed}
-            bad = {k for k in changed if k not in allowed_keys and not k.endswith("@@attrnames")}
+            changed = {k for k, *_ in canon.diff(base, c) if not k.endswith("@@attrnames")}
+            allowed = owners.get(re.sub(r":\d+:", ":{i}:", s_), set()) if not gen.is_padding(f) else set()
+            bad = changed - allowed
             if bad:
-                violations.append({"what": f"byte {pos} of field {s} influences leaves outside that field: {sorted(bad)[:3]}",
-                                   "detail": {"allowed": sorted(allowed_keys)[:4]}})
-        fs.pipe(f"{root}/{led_name}", base_bytes)
+                violations.append({"what": f"byte {pos} of field {s_} ({target[:3]}) influences leaves outside that field: {sorted(bad)[:3]}",
+                                   "detail": {"allowed": sorted(allowed)[:4], "padding": gen.is_padding(f)}})
+        fs.pipe(f"{root}/{target}", base_bytes)
     finally:
         synth.uninstall(files, root, "memory")
-    return {"sig": f"influence|slice{j}", "evals": obs["influence_bytes"], "violations": violations[:6], "obs": obs,
-            "sample": {"mode": "influence map", "slice": j, "bytes_substituted": obs["influence_bytes"]}}
+    return {"sig": f"influence|{target[:3]}|slice{j}", "evals": obs["influence_bytes"], "violations": violations[:6], "obs": obs,
+            "sample": {"mode": "influence map", "file": target[:3], "slice": j, "bytes_substituted": obs["influence_bytes"]}}
